@@ -166,10 +166,43 @@ func vfC18RunPush(c vfC18PushCase, emit func(vfC18PushVec)) {
 		return cp.Decode(body)
 	}
 	rows := vfRowsBody(byte(c.Proto), "ks", "tbl", []vfCol{{"v", vfTVarchar}}, [][][]byte{{vfCellText("forty-two")}}, nil, false)
+	// highly repetitive results: rows x columns x 4 exceeds the COMPRESSED size of the frame by far
+	const nbig = 250
+	var same, counted [][][]byte
+	for i := 0; i < nbig; i++ {
+		same = append(same, [][]byte{vfCellText("aaaaaaaa"), vfCellText("bb")})
+		counted = append(counted, [][]byte{vfCellText(fmt.Sprintf("k%05d", i)), vfCellText("vvvvvvvv")})
+	}
+	cols2 := []vfCol{{"a", vfTVarchar}, {"b", vfTVarchar}}
+	bigSame := vfRowsBody(byte(c.Proto), "ks", "big", cols2, same, nil, false)
+	bigCounted := vfRowsBody(byte(c.Proto), "ks", "big", cols2, counted, nil, false)
+	var prepMu sync.Mutex
+	prepared := map[string]string{} // prepared id -> statement
 	n.Handler = func(nc *vfNodeConn, f *vfFrame, q *vfRequest) bool {
-		if f.Op == vfOpExecute || f.Op == vfOpQuery && strings.Contains(q.Stmt, "ks.rows") {
-			nc.Reply(f, vfOpResult, rows)
+		switch f.Op {
+		case vfOpPrepare:
+			prepMu.Lock()
+			prepared["id:"+q.Stmt] = q.Stmt
+			prepMu.Unlock()
+			return false
+		case vfOpExecute:
+			prepMu.Lock()
+			stmt := prepared[string(q.PreparedID)]
+			prepMu.Unlock()
+			switch {
+			case strings.Contains(stmt, "ks.bigsame"):
+				nc.Reply(f, vfOpResult, bigSame)
+			case strings.Contains(stmt, "ks.bigcounted"):
+				nc.Reply(f, vfOpResult, bigCounted)
+			default:
+				nc.Reply(f, vfOpResult, rows)
+			}
 			return true
+		case vfOpQuery:
+			if strings.Contains(q.Stmt, "ks.rows") {
+				nc.Reply(f, vfOpResult, rows)
+				return true
+			}
 		}
 		return false
 	}
@@ -229,6 +262,29 @@ func vfC18RunPush(c vfC18PushCase, emit func(vfC18PushVec)) {
 		o, d = "wrong-value", v
 	}
 	report("rows", mark, o, d)
+
+	// every cell of the big results is compared with what the node sent (the same in every mode, compressed or not)
+	bigStep := func(stage, table string, want [][][]byte) {
+		mark := px.snapshot()
+		iter := s.Query("SELECT a, b FROM ks." + table).PageSize(10000).Iter()
+		var a, b string
+		rowsSeen, bad := 0, ""
+		for iter.Scan(&a, &b) {
+			if rowsSeen < len(want) && (a != string(want[rowsSeen][0]) || b != string(want[rowsSeen][1])) && bad == "" {
+				bad = fmt.Sprintf("row %d: got (%q, %q)", rowsSeen, a, b)
+			}
+			rowsSeen++
+		}
+		o, d := oc(iter.Close())
+		if o == "value" && (rowsSeen != len(want) || bad != "") {
+			o, d = "wrong-value", fmt.Sprintf("%d of %d rows; %s", rowsSeen, len(want), bad)
+		}
+		report(stage, mark, o, d)
+	}
+	if c.Negotiated != "vfxor" && c.Mode != "alt" && c.Mode != "events" { // the xor stand-in does not compress: nothing to learn, and 8 KiB xor bodies are slow in TLC
+		bigStep("rows-250-identical", "bigsame", same)
+		bigStep("rows-250-counted", "bigcounted", counted)
+	}
 
 	mark = px.snapshot()
 	o, d = oc(s.Query("INSERT INTO ks.tbl (k, v) VALUES (?, ?)", 7, 8).Exec())
